@@ -15,6 +15,11 @@ def run(tier, seed):
                          'given only what the regular-expression groups guarantee (\\d{1,4}, \\d{1,2}, month names); the '
                          'constructor precondition (1 <= Y <= 9999, 1 <= M <= 12, 1 <= D <= days(Y, M) incl. leap years) is '
                          'encoded in integers')
+    if PID == 'C12':
+        ctx.run_deductive(MODULES, [i for i, c in REGISTRY.items() if not c.assumed and PID in c.props])
+        ctx.notes.append('deductive part: TestGenerator.test_name never hands out a name that is already taken (built-in checks '
+                         'included) and records the name it returns - so no generated test method replaces another; the set of taken '
+                         'names is an arbitrary set')
     ctx.trusted.extend(['A-datetime: constructor field ranges; A-re: what the date regular expressions capture',
                         'subprocess / shell / unittest behaviour', 'z3; pyvc encoding'])
     ctx.assumptions.extend(['the emitted script is a program run in a subprocess: no contract on a function of /repo can express '
